@@ -233,7 +233,7 @@ class SvNeedsSubFloat(DataOperation):
         return FloatDataType
 
     def _process_logic(self, data):
-        _invoke("SvNeedsSubFloat", "SvRaiseOdd", "SvProbeNone", {}, data)
+        _invoke("SvNeedsSubFloat", "SvRaiseOdd", "SvProbeNone", "SvWrongOutput", "SvWriteThenFail", "SvCtxWriterOpaque", {}, data)
         return FloatDataType(data.data)
 
 
@@ -252,6 +252,47 @@ class SvRaiseOdd(_FloatOp):
     def _process_logic(self, data, code: float = 7.0):
         _invoke("SvRaiseOdd", {"code": code}, data)
         raise SvOddError(int(code), "SvRaiseOdd")
+
+
+class SvWrongOutput(_FloatOp):
+    """Declares FloatDataType output but returns a text payload (legal: the runtime does not gate on output types)."""
+
+    def _process_logic(self, data):
+        _invoke("SvWrongOutput", {}, data)
+        return SvTextDataType(f"not-a-float:{data.data!r}")
+
+
+class SvWriteThenFail(_FloatOp):
+    """Writes its declared context key, THEN raises."""
+
+    @classmethod
+    def context_keys(cls):
+        return ["wtf_key"]
+
+    def _process_logic(self, data):
+        _invoke("SvWriteThenFail", {}, data)
+        self._notify_context_update("wtf_key", data.data + 0.03125)
+        raise _world.SimFault("failed after writing wtf_key")
+
+
+class SvOpaque:
+    """A context value that is not JSON-serialisable and whose repr raises."""
+
+    def __repr__(self):
+        raise RuntimeError("sealed value")
+
+
+class SvCtxWriterOpaque(_FloatOp):
+    """Writes an opaque object under the declared key ``opq``."""
+
+    @classmethod
+    def context_keys(cls):
+        return ["opq"]
+
+    def _process_logic(self, data):
+        _invoke("SvCtxWriterOpaque", {}, data)
+        self._notify_context_update("opq", SvOpaque())
+        return FloatDataType(data.data + 0.0)
 
 
 class SvCtxWriterA(_FloatOp):
@@ -434,7 +475,7 @@ class SvBadCtxProc(ContextProcessor):
 
 LEAF_NAMES = [
     "SvSource", "SvSourceDefault", "SvPayloadSource", "SvAdd", "SvAddDefault", "SvMul",
-    "SvMulDefault", "SvAffine", "SvSlow", "SvCaseOp", "SvScaleInPlace", "SvToStream", "SvStreamSum", "SvNeedsSubFloat", "SvRaiseOdd", "SvProbeNone", "SvCtxWriterA", "SvCtxWriterB", "SvBadWriter", "SvToText",
+    "SvMulDefault", "SvAffine", "SvSlow", "SvCaseOp", "SvScaleInPlace", "SvToStream", "SvStreamSum", "SvNeedsSubFloat", "SvRaiseOdd", "SvProbeNone", "SvWrongOutput", "SvWriteThenFail", "SvCtxWriterOpaque", "SvCtxWriterA", "SvCtxWriterB", "SvBadWriter", "SvToText",
     "SvTextLen", "SvCollSum", "SvProbe", "SvProbeParam", "SvProbeDefault", "SvFileSink",
     "SvNullSink", "SvCtxCombine", "SvBadCtxProc",
 ]
